@@ -404,6 +404,9 @@ def check(case):
                     raise PropertyViolation(f"{what}: clone changed parameter {key!r}: {v0!r} -> {p1[key]!r}")
             params0 = p1
             fitted_on = None
+    if case["estimator"] == "adv" and refit_diff and len(set(case["D1"]["g"])) >= 3 and len(set(case["D2"]["g"])) >= 3 \
+            and set(case["D1"]["g"]) != set(case["D2"]["g"]):
+        tags.add("adv_refit_other_category_set")
     if case["estimator"] == "adv" and refit_diff and not case["config"]["regressor"] and \
             case["D1"].get("yenc") != case["D2"].get("yenc"):
         tags.add("adv_refit_other_label_set")
@@ -422,9 +425,9 @@ def check(case):
 
 
 @st.composite
-def _labelled(draw, min_per=2, max_per=5, labels=None):
+def _labelled(draw, min_per=2, max_per=5, labels=None, max_groups=3, min_groups=2):
     labels = labels or draw(st.sampled_from([["a", "b", "c"], [0, 1, 2], [5, 3, 9]]))
-    k = draw(st.integers(2, 3))
+    k = draw(st.integers(min_groups, max_groups))
     g, y = [], []
     for i in range(k):
         m = draw(st.integers(min_per, max_per))
@@ -535,9 +538,10 @@ def _cr_hist(draw):
 @st.composite
 def _adv_hist(draw):
     reg = draw(st.booleans())
-    labels = draw(st.sampled_from([[0, 1, 2], ["a", "b", "c"]]))
-    d1 = draw(_labelled(min_per=2, max_per=4, labels=labels))
-    d2 = draw(_labelled(min_per=2, max_per=4, labels=labels))
+    # up to four categories of the sensitive feature; the two datasets may see different subsets of them
+    labels = draw(st.sampled_from([[0, 1, 2, 3], ["a", "b", "c", "d"]]))
+    d1 = draw(_labelled(min_per=2, max_per=3, labels=labels, max_groups=4))
+    d2 = draw(_labelled(min_per=2, max_per=3, labels=labels, max_groups=4))
     encs = [[0, 1], ["no", "yes"], [1, 2], [0, 1], ["b", "a"]]
     d1["yenc"] = draw(st.sampled_from(encs))
     d2["yenc"] = draw(st.sampled_from(encs))
@@ -549,6 +553,27 @@ def _adv_hist(draw):
                        "batch_size": draw(st.sampled_from([-1, 3, 4])),
                        "constraints": draw(st.sampled_from(["demographic_parity", "equalized_odds"])),
                        "seed": draw(st.integers(0, 5))}}
+
+
+@st.composite
+def _adv_refit_hist(draw):
+    """Adversarial refits whose second dataset has fewer (but still >= 3) categories of the sensitive feature, or
+    another label encoding: re-initialisation must also rebuild the encoders."""
+    h = draw(_adv_hist())
+    labels = draw(st.sampled_from([[0, 1, 2, 3], ["a", "b", "c", "d"]]))
+    d1 = draw(_labelled(min_per=2, max_per=3, labels=labels, max_groups=4, min_groups=4))
+    d2 = draw(_labelled(min_per=2, max_per=3, labels=labels, max_groups=4, min_groups=4))
+    drop = draw(st.sampled_from(labels))
+    keep = [i for i, g in enumerate(d2["g"]) if g != drop]
+    d2 = {k: ([v[i] for i in keep] if isinstance(v, list) and len(v) == len(d2["g"]) else v) for k, v in d2.items()}
+    encs = [[0, 1], ["no", "yes"], [1, 2]]
+    d1["yenc"], d2["yenc"] = draw(st.sampled_from(encs)), draw(st.sampled_from(encs))
+    if draw(st.booleans()):
+        d1, d2 = d2, d1
+    h["D1"], h["D2"] = d1, d2
+    h["ops"] = draw(st.sampled_from([["fit1", "fit2"], ["fit1", "predict", "fit2"], ["fit2", "fit1", "predict"], ["fit1", "fit2", "fit1"]]))
+    h["config2"] = {}
+    return h
 
 
 @st.composite
@@ -629,4 +654,6 @@ SUBS = [
         floors={"nt": 0.15, "refit_other_data": 0.06, "copy_after_fit": 0.08, "est:to": 0.05, "est:eg": 0.1, "est:gs": 0.1,
                 "est:cr": 0.05, "est:adv": 0.05}),
     Sub("histories_exhaustive", check, enumerate=_enumerate, shards=16, exhaustive=True),
+    Sub("adversarial_refits", check, strategy=_adv_refit_hist, quick=48, thorough=800, shards=16, shrink_quick=False,
+        floors={"adv_refit_other_category_set": 0.5}),
 ]
